@@ -28,15 +28,14 @@ def r1_paths(ctx):
     ps = ctx.paths(qn)
     seen = set()
     for p in ps:
-        anyn = unc = None
-        for c, v in p.conds:
-            if c[0] == "call" and callee(c) == "builtins.any":
-                anyn = lookup(p.decided, c)
-            if c == Q.self_attr("uncertainty"):
-                unc = lookup(p.decided, c)
         if p.exit == "raise":
-            cc = p.conds[-1][0] if p.conds else None
-            ok = cc is not None and cc[0] == "boolop" and cc[1] == "And" and any(x[0] == "call" and callee(x) == "builtins.any" for x in cc[2]) and Q.self_attr("uncertainty") in cc[2] and p.conds[-1][1]
+            cc, cv = p.conds[-1] if p.conds else (None, None)
+            # the rejecting decision: (some weight is None) and self.uncertainty, in any of its spellings
+            ok = None
+            if cc is not None:
+                nq = Q.none_quantifiers(cc)
+                if nq and Q.self_attr("uncertainty") in list(walk(cc)) + [cc]:
+                    ok = Q.some_none(p) is True and lookup(p.decided, Q.self_attr("uncertainty")) is True
             early = not any(e.kind == "call" and callee(e.data[0]) == "verde.coordinates.block_split" for e in p.events)
             ctx.check("R1", qn + "|uncertainty-without-weights-raises", True if ok and early else (False if ok and not early else None),
                       "uncertainty=True without weights raises before any blocking work", bad="the rejection happens after block_split", fn=qn)
@@ -45,8 +44,11 @@ def r1_paths(ctx):
         if p.exit != "return":
             continue
         aggs = [callee(e.data[0]) for e in p.events if e.kind == "call" and e.data[0][1][0] == "attr" and e.data[0][1][1] == Q.SELF and e.data[0][1][2].startswith("_blocked")]
-        anyn = lookup(p.decided, [c for c, _v in p.conds if c[0] == "call" and callee(c) == "builtins.any"][0]) if any(c[0] == "call" and callee(c) == "builtins.any" for c, _v in p.conds) else None
+        anyn = Q.some_none(p)
         unc = lookup(p.decided, Q.self_attr("uncertainty"))
+        if anyn is None or (not anyn and unc is None):
+            ctx.add("R1", "%s|aggregation|%s" % (qn, Q.tags(p.conds)), "UNDECIDED", "the path does not decide whether weights were given / uncertainty is set in a recognised form", fn=qn)
+            continue
         want = "._blocked_mean_variance" if anyn else ("._blocked_mean_uncertainty" if unc else "._blocked_mean_variance_weighted")
         key = "no-weights" if anyn else ("weights,uncertainty" if unc else "weights,variance")
         seen.add(key)
@@ -141,9 +143,9 @@ def r2_uncertainty(ctx):
             if t[0] == "comp" and t[2][0] == "sub" and t[2][1] == aggs[0]:
                 tmpl, _ix = fmt_key(t[2][2])
                 if nm == "mean":
-                    okm = True if tmpl and tmpl.startswith("data") else False
+                    okm = True if tmpl and tmpl.startswith("data") else (False if tmpl and tmpl.startswith("weight") else None)
                 else:
-                    okv = True if tmpl and tmpl.startswith("weight") else False
+                    okv = True if tmpl and tmpl.startswith("weight") else (False if tmpl and tmpl.startswith("data") else None)
         ctx.check("R2", qn + "|mean-from-data-columns", okm, "the mean is read from the data columns", bad="the mean is read from the weight columns", fn=qn)
         ctx.check("R2", qn + "|variance-from-weight-columns", okv, "the variance is read from the weight columns", bad="the variance is read from the data columns", fn=qn)
 
